@@ -12,6 +12,9 @@ B3  real propagate() runs on the shipped networks (single / multi band, OpenROAD
     RamanFiber = Scale AddNLI AddASE Scale Scale; Multiband_amplifier = nested Edfa crossings; Transceiver = none),
     NeverImprovesGsnr / NeverImprovesOsnr / NeverImprovesNli for every channel over every element, PassiveUnchanged
     (Roadm, Fused, Transceiver), KeepsNli (amplifiers), KeepsOsnr (non-Raman fibre) - keyed by channel frequency.
+    NLI methods: gn_model_analytic, ggn_approx with nli_params.computed_channels (a list) and with
+    nli_params.computed_number_of_channels (that many channels spread over the comb, the others interpolated),
+    the latter on combs made of blocks of carriers launched 3 to 12 dB apart.
 """
 from harness import propagation_util as pu
 from harness.ledger_util import BOUNDS, model_check, emitted_behaviours, replay, run_b3
